@@ -826,7 +826,10 @@ func (s *ValueSpec) End() token.Pos {
 	if s.Type != nil {
 		return s.Type.End()
 	}
-	return s.Names[len(s.Names)-1].End()
+	if n := len(s.Names); n > 0 {
+		return s.Names[n-1].End()
+	}
+	return s.ColonPos
 }
 func (s *TypeSpec) End() token.Pos { return s.Type.End() }
 
